@@ -381,7 +381,9 @@ class TreeGen:
         strs: Any = None,
         wide: bool = True,
         origin_index: int = 30,
+        extra_leaves: tuple[str, ...] = (),
     ) -> None:
+        self.extra_leaves = extra_leaves
         self.leaves = leaves
         self.width = width
         self.share = share
@@ -429,6 +431,7 @@ class TreeGen:
             names.append("Falsy")
         if self.servals:
             names.append("SerVals")
+        names.extend(self.extra_leaves)
         opts = [self.leaf_of(n) for n in names]
         # childless inner node
         opts.append(st.fixed_dictionaries({"c": st.just("Mixed"), "p": self.props("Mixed"), "o": self.origin()}))
